@@ -428,3 +428,56 @@ Fixpoint count_pump (script : list sev) : nat :=
   | Pump :: r => S (count_pump r)
   | SRecv _ :: r => count_pump r
   end.
+
+(* ---------------------------------------------------------------- one packet object, used many times *)
+(* A CPXPacket is a mutable object: attributes are assigned, it is encoded (wireData / writePacket), assigned again,
+   encoded again (chunked transfers re-send one object with new data and lastPacket=True for the final chunk), or
+   filled from received bytes (wireData setter) and re-encoded.  The encoder is a function of the current attributes. *)
+Inductive pmut :=
+| MSrc (z : Z) | MDst (z : Z) | MFn (z : Z) | MVer (z : Z) | MLast (b : bool)
+| MData (l : list Z)           (* packet.data = l : `length` is NOT refreshed *)
+| MDecode (bytes : list Z).    (* packet.wireData = bytes (valid bytes; an exception leaves a half-assigned object: not used) *)
+Inductive pop := PMut (m : pmut) | PEnc | PWrite.
+
+Definition apply_mut (p : cpx) (m : pmut) : cpx :=
+  match m with
+  | MSrc z => mk_cpx z (c_dst p) (c_fn p) (c_last p) (c_ver p) (c_len p) (c_data p)
+  | MDst z => mk_cpx (c_src p) z (c_fn p) (c_last p) (c_ver p) (c_len p) (c_data p)
+  | MFn z => mk_cpx (c_src p) (c_dst p) z (c_last p) (c_ver p) (c_len p) (c_data p)
+  | MVer z => mk_cpx (c_src p) (c_dst p) (c_fn p) (c_last p) z (c_len p) (c_data p)
+  | MLast b => mk_cpx (c_src p) (c_dst p) (c_fn p) b (c_ver p) (c_len p) (c_data p)
+  | MData l => mk_cpx (c_src p) (c_dst p) (c_fn p) (c_last p) (c_ver p) (c_len p) l
+  | MDecode bytes => match set_wire bytes with Ok q => q | Exc _ => p end
+  end.
+
+(* what each encode of the history produces *)
+Fixpoint h_run (p : cpx) (ops : list pop) : list (res (list Z)) :=
+  match ops with
+  | [] => []
+  | PMut m :: r => h_run (apply_mut p m) r
+  | PEnc :: r => Ok (wire_data p) :: h_run p r
+  | PWrite :: r => write_packet p :: h_run p r
+  end.
+(* the attribute values at the moment of each encode *)
+Fixpoint h_states (p : cpx) (ops : list pop) : list cpx :=
+  match ops with
+  | [] => []
+  | PMut m :: r => h_states (apply_mut p m) r
+  | PEnc :: r => p :: h_states p r
+  | PWrite :: r => p :: h_states p r
+  end.
+
+(* an encoder that caches the two routing bytes and forgets the cache when source, destination, function or
+   version is assigned — but not when lastPacket is (the shape of a plausible "build once" optimisation) *)
+Definition cache_keeps (m : pmut) : bool := match m with MLast _ | MData _ => true | _ => false end.
+Fixpoint hc_run (p : cpx) (cache : option (Z * Z)) (ops : list pop) : list (list Z) :=
+  match ops with
+  | [] => []
+  | PMut m :: r => hc_run (apply_mut p m) (if cache_keeps m then cache else None) r
+  | _ :: r =>
+      let hb := match cache with
+                | Some hb => hb
+                | None => (hdr0 (c_src p) (c_dst p) (c_last p), hdr1 (c_fn p) (c_ver p))
+                end in
+      (fst hb :: snd hb :: c_data p) :: hc_run p (Some hb) r
+  end.
